@@ -1,5 +1,13 @@
 """C06 cases: bitwise logic, counts, bit manipulation."""
 from .common import *
+from . import prim as _prim
+
+# the trusted leaf layer (Lean Prim.*) is validated against rustc's primitives in the same run
+HARNESS_BINS = ["c06", "prim"]
+
+
+def ROUTE(line):
+    return _prim.route(line, "c06")
 
 BIN = ["bitand", "bitor", "bitxor"]
 UN = ["not", "swap_bytes", "reverse_bits", "is_power_of_two", "is_zero", "is_one",
@@ -31,7 +39,7 @@ def runs_value(rng, w, n):
     return "runs", v
 
 
-def gen(rng, tier):
+def _gen_main(rng, tier):
     reps = 150 if tier == "thorough" else 20
     for cfg in cfgs(tier):
         w, n = wn(cfg)
@@ -58,3 +66,8 @@ def gen(rng, tier):
             for op in UN:
                 for a in range(1 << 16):
                     yield f"{op} {s}8x2 {hx(a)}", "exhaustive16"
+
+
+def gen(rng, tier):
+    yield from _gen_main(rng, tier)
+    yield from _prim.bits(rng, tier)
